@@ -219,8 +219,14 @@ def spec_first_match_closure(ck):
     def evaluate(ctx):
         ctx.st.trace.append(('evaluate',))
         return Bool(verdict)
+    other = z3.Bool('target_has_feature')
+
+    def has_feature(ctx):
+        ctx.st.trace.append(('has_feature',))
+        return Bool(other)
     ex.overrides.append((re.compile(r'(?:^|::)Rule::evaluate$'), evaluate))
-    ex.inputs = {'rule_evaluates_true': verdict, 'rule_target_is_some': tgt}
+    ex.overrides.append((re.compile(r'Connector>::has_feature$'), has_feature))
+    ex.inputs = {'rule_evaluates_true': verdict, 'rule_target_is_some': tgt, 'target_has_feature': other}
     opt = ex.si.enums['Option']
     target = Agg('Option', {}, tgt, {1: {0: Ref(st.alloc(Opaque('dyn Connector', 'rule-target')), ())}}, opt)
     # Rule { target_name, target, filter_str, filter, stats }: field order from the source
@@ -237,6 +243,7 @@ def spec_first_match_closure(ck):
         d = C.BV(r.discr, 64) if isinstance(r.discr, int) else r.discr
         ex.prove(s, 'C02/first-match/rule-selected-iff-its-filter-is-true', (d == BV(1, 64)) == verdict)
         ex.prove(s, 'C02/first-match/filter-evaluated-exactly-once', [e[0] for e in s.trace].count('evaluate') == 1)
+        ex.prove(s, 'C02/first-match/selection-depends-on-the-filter-only', 'has_feature' not in [e[0] for e in s.trace])
         inner = r.variants.get(1, {}).get(0)
         if inner is not None:
             di = BV(inner.discr, 64) if isinstance(inner.discr, int) else inner.discr
